@@ -287,7 +287,7 @@ pub fn run(ctx: &Ctx) -> Shard {
         cases.push(serde_json::from_value(doc["case"]["c03_case"].clone()).expect("case"));
     } else {
         let mut rng = Rng::new(ctx.shard_seed());
-        let n = ctx.scale(if ctx.thorough() { 1200 } else { 40 });
+        let n = ctx.scale(if ctx.thorough() { 1500 } else { 250 });
         for i in 0..n {
             let ps = if ctx.thorough() && i % 3 == 2 { 4096 } else { 1024 };
             let steps = if ctx.thorough() { 120 } else { 60 };
